@@ -41,7 +41,7 @@ ASSUMPTIONS = [
 ]
 SETTINGS: Dict[str, Dict[str, Any]] = {
     "quick": {"cases": 160, "budget_s": 60, "minimums": {"rows_checked": 600, "conservation_checks": 100, "nontrivial": 40, "cross_report_assets": 30}},
-    "thorough": {"cases": 3000, "budget_s": 420, "minimums": {"rows_checked": 5000, "conservation_checks": 1200, "nontrivial": 400, "cross_report_assets": 250}},
+    "thorough": {"cases": 3000, "budget_s": 420, "minimums": {"rows_checked": 3000, "conservation_checks": 720, "nontrivial": 240, "cross_report_assets": 150}},
 }
 REL = Fraction(1, 10**9)
 
